@@ -187,14 +187,14 @@ Proof.
   rewrite split_max_tok by auto. reflexivity.
 Qed.
 
-Lemma wf_kernel_parts ex m : wf_kernel ex m = true ->
+Lemma wf_kernel_parts m : wf_kernel0 m = true ->
   forallb tok_ok (hdr_tokens m) = true /\ suffixb [58] (m_addr m) = false /\
   (match m_addr m with c :: _ => is_hex c | [] => false end) = true /\
-  path_ok ex m = true /\ forallb wf_line (m_lines m) = true /\
+  path_head_ok m = true /\ forallb wf_line (m_lines m) = true /\
   forallb (fun f => Nat.leb (count_fig f (m_lines m)) 1) all_figs = true /\
   m_lines m <> [].
 Proof.
-  unfold wf_kernel, wf_header, wf_body. intros H.
+  unfold wf_kernel0, wf_header, wf_body. intros H.
   apply andb_true_iff in H as [Hh Hb].
   apply andb_true_iff in Hb as [Hb H7]. apply andb_true_iff in Hb as [H5 H6].
   apply andb_true_iff in Hh as [H H4].
@@ -217,7 +217,7 @@ Qed.
 Lemma esc_nl_head c pr : is_ws c = false -> esc_nl (c :: pr) = c :: esc_nl pr.
 Proof. intros H. cbn [esc_nl]. destruct (Z.eqb_spec c 10) as [->|]; [discriminate H|reflexivity]. Qed.
 
-Lemma hdr_fields ex m : wf_kernel ex m = true ->
+Lemma hdr_fields m : wf_kernel0 m = true ->
   split_max 5 (hdr_text m) =
   hdr_tokens m ++ match m_path m with [] => [] | _ => [shown_path m] end.
 Proof.
@@ -227,9 +227,9 @@ Proof.
   apply andb_true_iff in Ht as [Ho Ht]. apply andb_true_iff in Ht as [Hd Ht].
   apply andb_true_iff in Ht as [Hi _].
   unfold hdr_text, hdr_core, hdr_trail, hdr_tokens. cbn [join]. rewrite <- !app_assoc. cbn [app].
-  unfold path_ok in Hp. unfold shown_path in *. destruct (m_path m) as [|c pr] eqn:Ep.
+  unfold path_head_ok in Hp. unfold shown_path in *. destruct (m_path m) as [|c pr] eqn:Ep.
   - rewrite split5 by auto. reflexivity.
-  - apply andb_true_iff in Hp as [Hc _]. apply negb_true_iff in Hc.
+  - pose proof Hp as Hc. apply negb_true_iff in Hc.
     rewrite split5 by auto. cbn [app]. f_equal. f_equal. f_equal. f_equal. f_equal.
     rewrite split_max_cons_ws by reflexivity. rewrite app_nil_r, split_max_spaces, split_max_0.
     unfold kname. rewrite Ep, (esc_nl_head c pr Hc).
@@ -242,43 +242,50 @@ Proof.
   rewrite firstn_app, Nat.sub_diag, firstn_all. cbn [firstn]. apply app_nil_r.
 Qed.
 
-(* decoding of the path column: the mapping's own path as the kernel shows it *)
-Lemma clean_path_own ex m c pr : m_path m = c :: pr ->
-  path_ok ex m = true -> clean_path ex (shown_path m) = kname m.
+Lemma shown_nonnil m c pr : m_path m = c :: pr -> path_head_ok m = true -> shown_path m <> [].
 Proof.
-  intros Ep Hp. unfold path_ok in Hp. rewrite Ep in Hp.
-  apply andb_true_iff in Hp as [Hc Hd]. apply negb_true_iff in Hc.
-  assert (Hk : kname m = c :: esc_nl pr) by (unfold kname; rewrite Ep; now apply esc_nl_head).
-  assert (E : clean_path ex (shown_path m) =
-              if suffixb deleted_sfx (shown_path m) && negb (ex (shown_path m))
-              then firstn (length (shown_path m) - 10) (shown_path m) else shown_path m).
-  { unfold shown_path. rewrite Hk. destruct (m_deleted m); reflexivity. }
-  rewrite E. unfold shown_path in *. destruct (m_deleted m).
-  - rewrite suffixb_app. apply negb_true_iff in Hd. rewrite Hd. cbn [negb andb].
-    change 10%nat with (length deleted_sfx). apply firstn_app_len.
-  - apply orb_true_iff in Hd as [Hd|Hd].
-    + apply negb_true_iff in Hd. now rewrite Hd.
-    + rewrite Hd. cbn [negb]. now rewrite andb_false_r.
+  intros Ep Hp. unfold path_head_ok in Hp. rewrite Ep in Hp. apply negb_true_iff in Hp.
+  unfold shown_path, kname. rewrite Ep, (esc_nl_head c pr Hp). destruct (m_deleted m); discriminate.
 Qed.
 
-Lemma mk_row_hdr ex m d : wf_kernel ex m = true ->
+(* decoding of the path column, for every answer of the probe but "permission denied" *)
+Lemma clean_path_row ex m c pr : m_path m = c :: pr -> path_head_ok m = true ->
+  probe_answers ex m = true -> clean_path ex (shown_path m) = Val (row_path ex m).
+Proof.
+  intros Ep Hp Ha. pose proof (shown_nonnil m c pr Ep Hp) as Hne.
+  unfold probe_answers, row_path, marked in *. rewrite Ep in *.
+  unfold clean_path. destruct (shown_path m) as [|c0 r0] eqn:Es; [congruence|]. rewrite <- Es in *.
+  destruct (suffixb deleted_sfx (shown_path m)); cbn [negb orb andb] in *; [|reflexivity].
+  destruct (ex (shown_path m)); cbn [is_denied is_exists negb] in *; try reflexivity. discriminate Ha.
+Qed.
+
+Lemma clean_path_denied ex m c pr : m_path m = c :: pr -> path_head_ok m = true ->
+  probe_answers ex m = false -> clean_path ex (shown_path m) = Exc AccessDenied.
+Proof.
+  intros Ep Hp Ha. pose proof (shown_nonnil m c pr Ep Hp) as Hne.
+  unfold probe_answers, marked in *. rewrite Ep in *.
+  unfold clean_path. destruct (shown_path m) as [|c0 r0] eqn:Es; [congruence|]. rewrite <- Es in *.
+  destruct (suffixb deleted_sfx (shown_path m)); cbn [negb orb] in Ha; [|discriminate Ha].
+  destruct (ex (shown_path m)); cbn [is_denied negb] in Ha; try discriminate Ha. reflexivity.
+Qed.
+
+Lemma mk_row_hdr ex m d : wf_kernel0 m = true -> probe_answers ex m = true ->
   mk_row ex (hdr_text m) d =
-  Val {| w_addr := m_addr m; w_perms := m_perms m;
-         w_path := match m_path m with [] => anon_path | _ => kname m end;
+  Val {| w_addr := m_addr m; w_perms := m_perms m; w_path := row_path ex m;
          w_nums := map (fun k => dict_get k d) map_keys |}.
 Proof.
-  intros Hk. unfold mk_row. rewrite (hdr_fields ex m Hk). unfold hdr_tokens.
+  intros Hk Ha. unfold mk_row. rewrite (hdr_fields m Hk). unfold hdr_tokens.
   apply wf_kernel_parts in Hk as (_ & _ & _ & Hp & _).
   destruct (m_path m) as [|c pr] eqn:Ep; cbn [app].
-  - reflexivity.
-  - now rewrite (clean_path_own ex m c pr Ep Hp).
+  - unfold row_path. now rewrite Ep.
+  - rewrite (clean_path_row ex m c pr Ep Hp Ha). reflexivity.
 Qed.
 
-Lemma block_line_hdr ex m cur d rows : wf_kernel ex m = true ->
+Lemma block_line_hdr ex m cur d rows : wf_kernel0 m = true ->
   block_line ex (cur, d, rows) (hdr_text m) =
   (do row <- mk_row ex cur d; Val (hdr_text m, d, row :: rows)).
 Proof.
-  intros Hk. unfold block_line. rewrite (hdr_fields ex m Hk). unfold hdr_tokens. cbn [app].
+  intros Hk. unfold block_line. rewrite (hdr_fields m Hk). unfold hdr_tokens. cbn [app].
   apply wf_kernel_parts in Hk as (_ & Hs & _). rewrite Hs. reflexivity.
 Qed.
 
@@ -411,7 +418,7 @@ Proof.
   unfold k_line. rewrite contains_app, line_core_no_nl by exact Hwf. now destruct l.
 Qed.
 
-Lemma hdr_text_no_nl ex m : wf_kernel ex m = true -> contains 10 (hdr_text m) = false.
+Lemma hdr_text_no_nl m : wf_kernel0 m = true -> contains 10 (hdr_text m) = false.
 Proof.
   intros H. apply wf_kernel_parts in H as (Ht & _ & _ & Hp & _).
   unfold hdr_tokens in *. cbn [forallb] in Ht.
@@ -422,17 +429,17 @@ Proof.
   rewrite !contains_app.
   rewrite (tok_no_nl _ Ha), (tok_no_nl _ Hpm), (tok_no_nl _ Ho), (tok_no_nl _ Hd), (tok_no_nl _ Hi).
   change (contains 10 [32]) with false. cbn [orb].
-  unfold path_ok in Hp. unfold shown_path. destruct (m_path m) as [|c pr] eqn:Ep; [reflexivity|].
+  unfold shown_path. destruct (m_path m) as [|c pr] eqn:Ep; [reflexivity|].
   rewrite contains_cons, contains_app, contains_spaces by discriminate. unfold kname.
   destruct (m_deleted m); [rewrite contains_app|]; rewrite esc_nl_no_nl; reflexivity.
 Qed.
 
-Lemma texts_no_nl ex ms ys : texts_of ms ys -> forallb (wf_kernel ex) ms = true ->
+Lemma texts_no_nl ms ys : texts_of ms ys -> forallb wf_kernel0 ms = true ->
   forallb (fun t => negb (contains 10 t)) ys = true.
 Proof.
   induction 1 as [|m ms xs ys Hx _ IH]; intros Hwf; [reflexivity|].
   cbn [forallb] in Hwf. apply andb_true_iff in Hwf as [Hm Hms].
-  cbn [forallb]. rewrite (hdr_text_no_nl ex m Hm). cbn [negb andb].
+  cbn [forallb]. rewrite (hdr_text_no_nl m Hm). cbn [negb andb].
   rewrite forallb_app, IH by exact Hms. rewrite andb_true_r.
   apply wf_kernel_parts in Hm as (_ & _ & _ & _ & Hl & _).
   clear -Hx Hl. induction Hx as [|l x ls xs Hlx _ IH]; [reflexivity|].
@@ -441,19 +448,20 @@ Proof.
 Qed.
 
 (* ------------------------------------------------ the whole loop *)
-Definition finish (ex : bytes -> bool) (st : bstate) : outcome (list maprow) :=
+Definition finish (ex : bytes -> probe_res) (st : bstate) : outcome (list maprow) :=
   let '(cur, d, rows) := st in do row <- mk_row ex cur d; Val (rev (row :: rows)).
 
 Definition has_figs (m : mapping) (d : dict) : Prop :=
   forall f, In f row_figs -> dict_get (fkey f) d = kb m f * 1024.
 
-Lemma row_of ex m d : wf_kernel ex m = true -> has_figs m d -> mk_row ex (hdr_text m) d = Val (spec_row m).
+Lemma row_of ex m d : wf_kernel0 m = true -> probe_answers ex m = true -> has_figs m d ->
+  mk_row ex (hdr_text m) d = Val (probed_row ex m).
 Proof.
-  intros Hwf Hd. rewrite mk_row_hdr by exact Hwf. unfold spec_row. f_equal. f_equal.
+  intros Hwf Ha Hd. rewrite mk_row_hdr by assumption. unfold probed_row. f_equal. f_equal.
   rewrite map_keys_eq, map_map. apply map_ext_in. exact Hd.
 Qed.
 
-Lemma count_le1 ex m f : wf_kernel ex m = true -> (count_fig f (m_lines m) <= 1)%nat.
+Lemma count_le1 m f : wf_kernel0 m = true -> (count_fig f (m_lines m) <= 1)%nat.
 Proof.
   intros H. apply wf_kernel_parts in H as (_ & _ & _ & _ & _ & Hc & _).
   rewrite forallb_forall in Hc. apply Nat.leb_le. apply Hc. apply in_all_figs.
@@ -464,20 +472,20 @@ Proof. intros H. unfold kb, fig_kb. now rewrite (find_fig_count0 f _ H). Qed.
 
 (* the dict after a mapping's lines holds that mapping's figures, provided a figure the
    mapping does not print was not printed by the previous one either *)
-Lemma has_figs_step ex m m' dm : wf_kernel ex m' = true -> has_figs m dm ->
+Lemma has_figs_step m m' dm : wf_kernel0 m' = true -> has_figs m dm ->
   (forall f, In f row_figs -> count_fig f (m_lines m') = O -> count_fig f (m_lines m) = O) ->
   has_figs m' (fold_left upd (m_lines m') dm).
 Proof.
-  intros Hk Hd Hu f Hf. pose proof (count_le1 ex m' f Hk) as Hle.
+  intros Hk Hd Hu f Hf. pose proof (count_le1 m' f Hk) as Hle.
   pose proof Hk as Hk2. apply wf_kernel_parts in Hk2 as (_ & _ & _ & _ & Hl & _).
   destruct (count_fig f (m_lines m')) as [|[|n]] eqn:Ec; [| |lia].
   - rewrite get_fold_none by assumption. rewrite (Hd f Hf), (kb_absent m' f Ec), (kb_absent m f (Hu f Hf Ec)). reflexivity.
   - unfold kb. now apply get_fold_one.
 Qed.
 
-Lemma has_figs_init ex m : wf_kernel ex m = true -> has_figs m (fold_left upd (m_lines m) []).
+Lemma has_figs_init m : wf_kernel0 m = true -> has_figs m (fold_left upd (m_lines m) []).
 Proof.
-  intros Hk f Hf. pose proof (count_le1 ex m f Hk) as Hle.
+  intros Hk f Hf. pose proof (count_le1 m f Hk) as Hle.
   pose proof Hk as Hk2. apply wf_kernel_parts in Hk2 as (_ & _ & _ & _ & Hl & _).
   destruct (count_fig f (m_lines m)) as [|[|n]] eqn:Ec; [| |lia].
   - rewrite get_fold_none by assumption. now rewrite (kb_absent m f Ec).
@@ -500,28 +508,31 @@ Qed.
 Lemma unif_tail m ms : unif (m :: ms) -> unif ms.
 Proof. intros H f Hf. destruct (H f Hf) as [A|A]; [left|right]; intros m' Hm'; apply A; now right. Qed.
 
-Lemma unif_step ex m m' ms : unif (m :: m' :: ms) -> wf_kernel ex m = true ->
+Lemma unif_step m m' ms : unif (m :: m' :: ms) -> wf_kernel0 m = true ->
   forall f, In f row_figs -> count_fig f (m_lines m') = O -> count_fig f (m_lines m) = O.
 Proof.
-  intros H Hk f Hf E. pose proof (count_le1 ex m f Hk) as Hle. destruct (H f Hf) as [A|A].
+  intros H Hk f Hf E. pose proof (count_le1 m f Hk) as Hle. destruct (H f Hf) as [A|A].
   - specialize (A m' (or_intror (or_introl eq_refl))). congruence.
   - specialize (A m (or_introl eq_refl)). lia.
 Qed.
 
-Lemma blocks_run ex rest ys : texts_of rest ys -> forallb (wf_kernel ex) rest = true ->
-  forall m dm rows, wf_kernel ex m = true -> has_figs m dm -> unif (m :: rest) ->
+Definition answers (ex : bytes -> probe_res) (ms : list mapping) : bool := forallb (probe_answers ex) ms.
+
+Lemma blocks_run ex rest ys : texts_of rest ys -> forallb wf_kernel0 rest = true -> answers ex rest = true ->
+  forall m dm rows, wf_kernel0 m = true -> probe_answers ex m = true -> has_figs m dm -> unif (m :: rest) ->
   (do st <- block_fold ex (hdr_text m, dm, rows) ys; finish ex st)
-  = Val (rev rows ++ spec_row m :: map spec_row rest).
+  = Val (rev rows ++ probed_row ex m :: map (probed_row ex) rest).
 Proof.
-  induction 1 as [|m' ms xs ys Hx _ IH]; intros Hwf m dm rows Hm Hd Hu.
-  - cbn [block_fold obind finish]. rewrite (row_of ex m dm Hm Hd). reflexivity.
+  induction 1 as [|m' ms xs ys Hx _ IH]; intros Hwf Hans m dm rows Hm Ha Hd Hu.
+  - cbn [block_fold obind finish]. rewrite (row_of ex m dm Hm Ha Hd). reflexivity.
   - cbn [forallb] in Hwf. apply andb_true_iff in Hwf as [Hm' Hms].
+    unfold answers in Hans. cbn [forallb] in Hans. apply andb_true_iff in Hans as [Ha' Hans].
     pose proof Hm' as Hk'.
-    cbn [block_fold]. rewrite (block_line_hdr ex m' _ dm rows Hk'), (row_of ex m dm Hm Hd). cbn [obind].
+    cbn [block_fold]. rewrite (block_line_hdr ex m' _ dm rows Hk'), (row_of ex m dm Hm Ha Hd). cbn [obind].
     rewrite block_fold_app.
     rewrite (block_fold_lines ex (m_lines m') xs); [|now apply wf_kernel_parts in Hk' as (_ & _ & _ & _ & Hl & _)|exact Hx].
     cbn [obind].
-    rewrite (IH Hms m' _ (spec_row m :: rows) Hm' (has_figs_step ex m m' dm Hk' Hd (unif_step ex m m' ms Hu Hm)) (unif_tail m _ Hu)).
+    rewrite (IH Hms Hans m' _ (probed_row ex m :: rows) Hm' Ha' (has_figs_step m m' dm Hk' Hd (unif_step m m' ms Hu Hm)) (unif_tail m _ Hu)).
     cbn [rev map]. now rewrite <- app_assoc.
 Qed.
 
@@ -529,7 +540,7 @@ Lemma memory_maps_data ex content D : strip content = D -> D <> [] ->
   memory_maps Alive ex (FContent content) = maps_of_data ex D.
 Proof. intros E Hne. unfold memory_maps, with_file. rewrite fstrip_strip, E. destruct D; [congruence|reflexivity]. Qed.
 
-Lemma wf_has_lines ex ms : forallb (wf_kernel ex) ms = true -> Forall has_lines ms.
+Lemma wf_has_lines ms : forallb wf_kernel0 ms = true -> Forall has_lines ms.
 Proof.
   induction ms as [|m ms IH]; [constructor|]. cbn [forallb]. intros H. apply andb_true_iff in H as [Hm Hms].
   constructor; [|now apply IH].
@@ -537,12 +548,12 @@ Proof.
 Qed.
 
 (* last physical line of a listing: a well-formed data line *)
-Lemma plines_last ex ms m0 : forallb (wf_kernel ex) (m0 :: ms) = true ->
+Lemma plines_last ms m0 : forallb wf_kernel0 (m0 :: ms) = true ->
   exists l, wf_line l = true /\ last (plines (m0 :: ms)) ([], []) = lp l.
 Proof.
   revert m0. induction ms as [|m1 ms IH]; intros m0 H.
   - cbn [forallb] in H. apply andb_true_iff in H as [Hm _].
-    pose proof (wf_has_lines ex [m0]) as Hl. cbn [forallb] in Hl. rewrite Hm in Hl. specialize (Hl eq_refl).
+    pose proof (wf_has_lines [m0]) as Hl. cbn [forallb] in Hl. rewrite Hm in Hl. specialize (Hl eq_refl).
     inversion Hl as [|? ? Hne _]; subst. unfold has_lines in Hne.
     apply wf_kernel_parts in Hm as (_ & _ & _ & _ & Hwl & _).
     destruct (exists_last Hne) as (ls' & l & El). exists l. split.
@@ -556,18 +567,18 @@ Proof.
     rewrite last_app_nonnil by apply plines_nonnil. exact El.
 Qed.
 
-Lemma hdr_core_head ex m : wf_kernel ex m = true -> ws_head (hdr_core m) = false.
+Lemma hdr_core_head m : wf_kernel0 m = true -> ws_head (hdr_core m) = false.
 Proof.
   intros Hm. apply wf_kernel_parts in Hm as (Ht & _). unfold hdr_tokens in Ht. cbn [forallb] in Ht.
   apply andb_true_iff in Ht as [Ha _]. unfold hdr_core, hdr_tokens. cbn [join].
   rewrite <- app_assoc. now apply tok_head.
 Qed.
 
-Lemma data_nonnil ex m0 ms : forallb (wf_kernel ex) (m0 :: ms) = true ->
+Lemma data_nonnil m0 ms : forallb wf_kernel0 (m0 :: ms) = true ->
   join [10] (trim_last (plines (m0 :: ms))) <> [].
 Proof.
   intros H E. cbn [forallb] in H. apply andb_true_iff in H as [Hm _].
-  pose proof (hdr_core_head ex m0 Hm) as Hh.
+  pose proof (hdr_core_head m0 Hm) as Hh.
   change (plines (m0 :: ms)) with (hp m0 :: (map lp (m_lines m0) ++ plines ms)) in E.
   assert (Hne : fst (hp m0) <> []) by (cbn [hp fst]; intros Z; rewrite Z in Hh; discriminate).
   pose proof (join_trim_head (hp m0) (map lp (m_lines m0) ++ plines ms) Hne) as J.
@@ -575,39 +586,77 @@ Proof.
 Qed.
 
 (* .strip() of the whole listing *)
-Lemma strip_smaps ex m0 ms : forallb (wf_kernel ex) (m0 :: ms) = true ->
+Lemma strip_smaps m0 ms : forallb wf_kernel0 (m0 :: ms) = true ->
   strip (k_smaps (m0 :: ms)) = join [10] (trim_last (plines (m0 :: ms))).
 Proof.
   intros H. rewrite k_smaps_pr.
   change (plines (m0 :: ms)) with (hp m0 :: (map lp (m_lines m0) ++ plines ms)).
-  destruct (plines_last ex ms m0 H) as (l & Hl & El).
+  destruct (plines_last ms m0 H) as (l & Hl & El).
   change (plines (m0 :: ms)) with (hp m0 :: (map lp (m_lines m0) ++ plines ms)) in El.
   apply (strip_printed _ _ ([], [])).
-  - cbn [forallb] in H. apply andb_true_iff in H as [Hm _]. cbn [hp fst]. now apply (hdr_core_head ex).
+  - cbn [forallb] in H. apply andb_true_iff in H as [Hm _]. cbn [hp fst]. now apply (hdr_core_head).
   - rewrite El. cbn [lp fst]. pose proof (line_core_good l Hl) as G. unfold good_core in G.
     now apply andb_true_iff in G as [_ G].
   - rewrite El. cbn [lp snd]. apply line_trail_ws.
 Qed.
 
-Theorem maps_ungrouped ex ms : forallb (wf_kernel ex) ms = true -> uniform_figs ms = true ->
-  memory_maps Alive ex (FContent (k_smaps ms)) = Val (map spec_row ms).
+(* the rows for every listing and every answer of the probe (there / not there for whatever
+   errno): one row per record, in order *)
+Theorem maps_rows ex ms : forallb wf_kernel0 ms = true -> uniform_figs ms = true -> answers ex ms = true ->
+  memory_maps Alive ex (FContent (k_smaps ms)) = Val (map (probed_row ex) ms).
 Proof.
-  intros Hwf Hunif. apply uniform_figs_unif in Hunif. destruct ms as [|m0 ms]; [reflexivity|].
+  intros Hwf Hunif Hans. apply uniform_figs_unif in Hunif. destruct ms as [|m0 ms]; [reflexivity|].
   pose proof Hwf as Hk.
-  pose proof (texts_of_plines (m0 :: ms) (wf_has_lines ex _ Hk)) as Ht.
-  pose proof (texts_no_nl ex _ _ Ht Hk) as Hn.
-  rewrite (memory_maps_data ex _ _ (strip_smaps ex m0 ms Hk)).
-  2:{ apply (data_nonnil ex m0 ms Hk). }
+  pose proof (texts_of_plines (m0 :: ms) (wf_has_lines _ Hk)) as Ht.
+  pose proof (texts_no_nl _ _ Ht Hk) as Hn.
+  rewrite (memory_maps_data ex _ _ (strip_smaps m0 ms Hk)).
+  2:{ apply (data_nonnil m0 ms Hk). }
   unfold maps_of_data. remember (trim_last (plines (m0 :: ms))) as T eqn:ET. clear ET.
   rewrite split_on_join; [|intros Z; rewrite Z in Ht; inversion Ht|exact Hn].
   inversion Ht as [|? ? xs ys Hx Hy E1 E2]; subst.
   cbn [forallb] in Hwf. apply andb_true_iff in Hwf as [Hm0 Hms].
   cbn [forallb] in Hk. apply andb_true_iff in Hk as [Hk0 _].
+  unfold answers in Hans. cbn [forallb] in Hans. apply andb_true_iff in Hans as [Ha0 Hans].
   rewrite block_fold_app.
   rewrite (block_fold_lines ex (m_lines m0) xs); [|now apply wf_kernel_parts in Hk0 as (_ & _ & _ & _ & Hl & _)|exact Hx].
   cbn [obind].
-  pose proof (blocks_run ex ms ys Hy Hms m0 _ [] Hm0 (has_figs_init ex m0 Hk0) Hunif) as R.
+  pose proof (blocks_run ex ms ys Hy Hms Hans m0 _ [] Hm0 Ha0 (has_figs_init m0 Hk0) Hunif) as R.
   unfold finish in R. cbn [rev app map] in R |- *.
   destruct (block_fold ex (hdr_text m0, fold_left upd (m_lines m0) [], []) ys) as [[[cur d] rows]| |];
     cbn [obind] in R |- *; try discriminate R. exact R.
+Qed.
+
+(* with a readable marker the decoded path is the mapping's own name *)
+Lemma row_path_own ex m : path_head_ok m = true -> marker_ok ex m = true -> probe_answers ex m = true ->
+  row_path ex m = match m_path m with [] => anon_path | _ => kname m end.
+Proof.
+  intros Hp Hm Ha. unfold row_path, marker_ok, probe_answers, marked, path_head_ok in *.
+  destruct (m_path m) as [|c pr] eqn:Ep; [reflexivity|].
+  unfold shown_path in *. destruct (m_deleted m).
+  - rewrite suffixb_app in *. cbn [negb orb andb] in *. rewrite Hm.
+    change 10%nat with (length deleted_sfx). apply firstn_app_len.
+  - destruct (suffixb deleted_sfx (kname m)); cbn [negb orb andb] in *; [|reflexivity]. now rewrite Hm.
+Qed.
+
+Lemma wf_kernel_split ex m : wf_kernel ex m = true ->
+  wf_kernel0 m = true /\ marker_ok ex m = true /\ probe_answers ex m = true.
+Proof.
+  unfold wf_kernel. intros H. apply andb_true_iff in H as [H H3]. apply andb_true_iff in H as [H1 H2]. auto.
+Qed.
+
+Lemma forallb_kernel0 ex ms : forallb (wf_kernel ex) ms = true -> forallb wf_kernel0 ms = true /\ answers ex ms = true.
+Proof.
+  induction ms as [|m ms IH]; [split; reflexivity|]. cbn [forallb]. intros H. apply andb_true_iff in H as [Hm Hms].
+  destruct (wf_kernel_split ex m Hm) as (H0 & _ & Ha). destruct (IH Hms) as [I1 I2].
+  unfold answers in *. cbn [forallb]. now rewrite H0, Ha, I1, I2.
+Qed.
+
+Theorem maps_ungrouped ex ms : forallb (wf_kernel ex) ms = true -> uniform_figs ms = true ->
+  memory_maps Alive ex (FContent (k_smaps ms)) = Val (map spec_row ms).
+Proof.
+  intros Hwf Hunif. destruct (forallb_kernel0 ex ms Hwf) as [H0 Ha].
+  rewrite (maps_rows ex ms H0 Hunif Ha). f_equal. apply map_ext_in. intros m Hm.
+  rewrite forallb_forall in Hwf. destruct (wf_kernel_split ex m (Hwf m Hm)) as (Hk & Hmk & Hpa).
+  unfold probed_row, spec_row. f_equal. apply row_path_own; auto.
+  now apply wf_kernel_parts in Hk as (_ & _ & _ & Hp & _).
 Qed.
